@@ -73,6 +73,15 @@ func concurrencyLabels(r *enginesim.Result) (labels []string, overlapping int) {
 	if r.Faults > 0 {
 		labels = append(labels, "store-fault")
 	}
+	if r.Closes > 0 {
+		labels = append(labels, "graceful-close")
+	}
+	if r.ReadFaults > 0 {
+		labels = append(labels, "read-fault")
+	}
+	if r.Cancels > 0 {
+		labels = append(labels, "caller-gone")
+	}
 	for _, e := range enginesim.ErrClasses(r) {
 		labels = append(labels, "err:"+e)
 	}
@@ -260,6 +269,7 @@ func TestC10(t *testing.T) {
 	cfg.ReadFaults = 1
 	cfg.Cancels = 1
 	cfg.IKPool = nil
+	cfg.UniqueIKPct = 35 // requests carrying a key that was never used before
 	cfg.RefPool = nil
 	runProp(t, c, func(rt *rapid.T) {
 		plan := enginesim.GenPlan(rt, cfg)
